@@ -223,7 +223,7 @@ var loopSpecs = []loopSpec{
 	{fn: "keeper.Keeper.slashUndelegations", what: "entries of an index-reached bucket", anchor: []string{"types.BankKeeper.SendCoinsFromModuleToModule"},
 		skips: []skipCond{{"binop", true, ".ValidatorAddress !=", "entry of another validator"}, {"binop", true, ".Balance.Denom !=", "entry of another denom"},
 			{"binop", false, ".ValidatorAddress ==", "entry of another validator"}, {"binop", false, ".Balance.Denom ==", "entry of another denom"}}, props: []string{"C07", "C02", "C01"}},
-	{fn: "keeper.Keeper.slashRedelegations", what: "index keys of the slashed source validator", anchor: []string{"keeper.Keeper.SetDelegation"},
+	{fn: "keeper.Keeper.slashRedelegations", what: "index keys of the slashed source validator", anchor: []string{"keeper.Keeper.SetDelegation", "keeper.Keeper.reduceDelegationShares"},
 		skips: []skipCond{matureSkip, {"", false, "keeper.Keeper.GetDelegation@", "destination position no longer exists"}, {"", false, "keeper.Keeper.GetAssetByDenom@", "asset no longer exists"}}, props: []string{"C07", "C08"}},
 	{fn: "keeper.Keeper.CompleteUnbondings", what: "matured buckets", anchor: []string{"corestore.KVStore.Delete|iter", "storetypes.KVStore.Delete|iter"}, outer: true, props: []string{"C02", "C01"}},
 	{fn: "keeper.Keeper.CompleteUnbondings", what: "entries of a matured bucket", anchor: []string{"types.BankKeeper.SendCoinsFromModuleToAccount"}, props: []string{"C02", "C01"}},
